@@ -179,6 +179,9 @@ def run_c05(tier):
         if not r["ok"]:
             res.violation("TLC: the mania pattern generators (K=%d) can reach %s" % (k, r["violated"] or "an error"),
                           {"kind": "tlc", "log_tail": common.tail_nonreplay(r["text"], 80)})
+    # ... and the introsort of the slider nested objects cannot leave its slice for any tie pattern (CsharpSort.tla, replayed)
+    from checks import utilsrep
+    utilsrep.run_utils(res, tier, common.build_harness("", "release"), which=("csharpsort",))
     res.cov.update({"evaluations": evaluations, "distinct_nontrivial": distinct, "samples": samples,
                     "rule": "TLC enumerates every map of the corner alphabet (Corners.tla) up to the object bound x global timing/difficulty setups x 4 modes; each distinct enumerated map counts once (all have at least one non-default corner class); evaluations = public calls executed on them (decode, check_suspicion, bpm, convert, difficulty, strains, attributes, gradual iteration, performance with 3-4 states, gradual performance) under the settings of the domain; plus a seeded family of structured-random maps and mutated fixture windows (each counted once) converted under every key mod"})
     res.assumptions += [
